@@ -13,6 +13,7 @@
 (*    L  len($) as an operand inside arithmetic chains under a comparison (str and slice fields);               *)
 (*    P  z * (a / z') and z * (a % z') (both factor orders) where z, z' are 0 for some field value ($, $-1, 1-$,   *)
 (*       len($), 0): 0 * NaN = NaN under every comparison operator, and bare;                                   *)
+(*    C  long flat chains of 5, 6, 7 operators with ascending / descending / zig-zag priority classes;           *)
 (*    D  (x arith y) cmp z for every arithmetic operator and numeric leaf incl. 0, 0.5, -1, $; *)
 (*    K  the minimal cases of the known findings.                                        *)
 (*    Each tree is printed twice: minimal parentheses and a redundant style; the spacing *)
@@ -62,6 +63,35 @@ FPairs == UNION {Pairs(FTrees(k, 2, GenFuncCfg), TVals(k)) : k \in Sorts}
 LPairs == UNION {Pairs(LTrees(GenLenOps, GenFuncCfg), TVals(k)) : k \in {"str", "slice"}}
 \* P: zero * NaN products (TagExpr!PTrees) for numeric, string and slice fields
 PPairs == UNION {Pairs(PTrees(k, GenProdFull), TVals(k)) : k \in {"num", "str", "slice"}}
+\* C: long unparenthesised mixed-precedence chains (5, 6, 7 binary operators): priority classes strictly ascending
+\*    (a right spine: the engine's post-parse re-balancing needs one more pass per level), strictly descending
+\*    and zig-zag.  A chain is written as a flat string and turned into its tree by this specification's own
+\*    Parse (documented precedence); $ stands at the first / last numeric operand or at the first boolean operand.
+\*    Classes: O ||, A &&, E == / !=, R <= / >, S -, M % / *.
+ChainTemplates == {<<"O", "A", "E", "R", "S", "M">>, <<"A", "E", "R", "S", "M">>, <<"O", "E", "R", "S", "M">>,
+                   <<"M", "S", "R", "E", "A", "O">>, <<"M", "S", "R", "E", "A">>,
+                   <<"S", "M", "R", "S", "M", "E", "A">>, <<"O", "A", "E", "R", "S", "M", "M">>,
+                   <<"E", "R", "S", "M", "O", "A", "E">>}
+ChainChoices == [eq : EqOps, rel : {"<=", ">"}, mul : {"%", "*"}]
+ClassOp(c, ch) == CASE c = "O" -> "||" [] c = "A" -> "&&" [] c = "E" -> ch.eq [] c = "R" -> ch.rel [] c = "S" -> "-" [] c = "M" -> ch.mul
+Arithy(c) == c \in {"R", "S", "M"}
+LeafNumeric(tpl, i) == (i >= 1 /\ Arithy(tpl[i])) \/ (i < Len(tpl) /\ Arithy(tpl[i + 1]))        \* leaf i in 0 .. Len(tpl)
+ChainNums == <<"3", "9", "8", "5", "2", "7", "4", "6">>
+\* boolean operands are neutral (false next to ||, true next to &&) so that the verdict depends on the whole chain
+BoolLeaf(tpl, i) == IF i < Len(tpl) /\ tpl[i + 1] = "O" THEN "false" ELSE IF i < Len(tpl) /\ tpl[i + 1] = "A" THEN "true"
+                    ELSE IF i >= 1 /\ tpl[i] = "O" THEN "false" ELSE "true"
+LeafStr(tpl, i, fp) == IF i = fp THEN "$" ELSE IF LeafNumeric(tpl, i) THEN ChainNums[i + 1] ELSE BoolLeaf(tpl, i)
+RECURSIVE ChainStr(_, _, _, _)
+ChainStr(tpl, ch, fp, i) == IF i = Len(tpl) THEN LeafStr(tpl, i, fp)
+                            ELSE LeafStr(tpl, i, fp) \o " " \o ClassOp(tpl[i + 1], ch) \o " " \o ChainStr(tpl, ch, fp, i + 1)
+MinOf(S) == CHOOSE x \in S : \A y \in S : x <= y
+MaxOf(S) == CHOOSE x \in S : \A y \in S : x >= y
+CPairs == UNION {LET numPos == {i \in 0 .. Len(tpl) : LeafNumeric(tpl, i)}
+                     boolPos == {i \in 0 .. Len(tpl) : ~LeafNumeric(tpl, i)}
+                 IN {<<Parse(ChainStr(tpl, ch, 0 - 1, 0)), NoVal>>}
+                    \cup ({Parse(ChainStr(tpl, ch, fp, 0)) : fp \in {MinOf(numPos), MaxOf(numPos)}} \X TVals("num"))
+                    \cup (IF boolPos = {} THEN {} ELSE {Parse(ChainStr(tpl, ch, MinOf(boolPos), 0))} \X BoolVals)
+                 : tpl \in ChainTemplates, ch \in ChainChoices}
 \* D: every arithmetic operator applied to every pair of numeric leaves (0, fractions, negatives, $), compared with
 \*    a third leaf: division / remainder by zero, NaN in comparisons, remainder of negatives and fractions
 DLeaves == {Num(0), Num(Scale), Num(2 * Scale), Num(32), Num(0 - Scale), Fld}
@@ -72,7 +102,7 @@ KPairs == {<<Bin("==", Bin("%", Fld, Num(32)), Num(0)), FV("int", Scale, "", FAL
            <<Bin("==", Fld, Fld), FV("slice", 0, "", FALSE)>>,
            <<In(<<Fld, Fld>>), FV("slice", 0, "", FALSE)>>}
 
-AllPairs == SetToSeq(UPairs \cup TPairs \cup ZPairs \cup FPairs \cup LPairs \cup PPairs \cup DPairs \cup KPairs)
+AllPairs == SetToSeq(UPairs \cup TPairs \cup ZPairs \cup FPairs \cup LPairs \cup PPairs \cup CPairs \cup DPairs \cup KPairs)
 
 \* (LET-bound so that TLC evaluates the pair sequence once)
 Cases == LET S == AllPairs
